@@ -624,7 +624,7 @@ pub fn run(rep: &mut Rep) {
     }
     // ---- long runs of small packets: hundreds of packets consumed back to back without the transport ever running dry
     {
-        let ns: Vec<usize> = if rep.quick() { vec![100, 129, 300, 1100] } else { vec![64, 65, 127, 128, 129, 130, 255, 256, 257, 300, 513, 1025, 5000] };
+        let ns: Vec<usize> = if rep.quick() { vec![100, 129, 300, 1100, 7000] } else { vec![64, 65, 127, 128, 129, 130, 255, 256, 257, 300, 513, 1025, 5000, 7000, 20_000, 70_000] };
         rep.note(&format!("long runs of small packets: {:?} packets (QoS 0/1 PUBLISH of 2-9 bytes payload, PINGRESP every 10th) available at once / in reads of <= 512, 64, 7 bytes / arriving in chunks of 100 bytes, compared with one packet per read", ns));
         for &n in &ns {
             let mut seq = Vec::with_capacity(n);
